@@ -150,7 +150,7 @@ func e6(depth int) {
 				res.Add("transitions", 1)
 				if !ok || len(first) == 0 {
 					res.Violate("request-not-dispatched", map[string]any{"part": "E6", "strategy": "least-connections"}, fmt.Sprintf("%s: step %d: no attempt arrived at any backend within 5 s", name, step+1),
-						map[string]any{"engine": "ops-stack", "world": engine, "history": h[:step+1]})
+						map[string]any{"engine": "ops-stack", "world": engine, "history": append([]string{}, h[:step+1]...)})
 					bad = true
 					return
 				}
@@ -161,7 +161,7 @@ func e6(depth int) {
 				if inflight[first[0]] != minF {
 					res.Violate("lc-not-minimal-in-flight", map[string]any{"part": "E6", "strategy": "least-connections", "engine": engine},
 						fmt.Sprintf("%s: at step %d the request was dispatched to %s, which has %d requests in flight, while the other endpoint has %d (in flight = requests the harness is holding at the backends); statuses %v, collector gauges %v, arrivals of this request %v\n%s",
-							name, step+1, first[0], inflight[first[0]], minF, w.o.Status(), w.gauges(), first, dbg), map[string]any{"engine": "ops-stack", "world": engine, "history": h[:step+1]})
+							name, step+1, first[0], inflight[first[0]], minF, w.o.Status(), w.gauges(), first, dbg), map[string]any{"engine": "ops-stack", "world": engine, "history": append([]string{}, h[:step+1]...)})
 					bad = true
 					return
 				}
